@@ -77,6 +77,31 @@ mut("C14", "first_byte_sequence_dropped", SE+"marshal.go", '''		bs, err := hexut
 		}''')
 mut("C14", "checkin_key_std_base64", SE+"marshal.go", "data, err := base64.RawURLEncoding.DecodeString(val)", "data, err := base64.RawStdEncoding.DecodeString(val)")
 
+# ---- C17 (RLP coding of value predicates) ----
+mut("C17", "decoder_reads_bytes_before_ints", SS+"eventtrigger.go", """	intArgs := []*big.Int{}
+	for i := 0; i < op.NumIntArgs(); i++ {""", """	intArgs := []*big.Int{}
+	for i := 0; i < op.NumByteArgs(); i++ {""")
+mut("C17", "encoder_writes_bytes_first", SS+"eventtrigger.go", """	elements = append(elements, uint64(p.Op))
+	for _, intArg := range p.IntArgs {
+		elements = append(elements, intArg)
+	}
+	for _, byteArg := range p.ByteArgs {
+		elements = append(elements, byteArg)
+	}""", """	elements = append(elements, uint64(p.Op))
+	for _, byteArg := range p.ByteArgs {
+		elements = append(elements, byteArg)
+	}
+	for _, intArg := range p.IntArgs {
+		elements = append(elements, intArg)
+	}""")
+mut("C17", "unmarshal_skips_validation", SS+"eventtrigger.go", """	if err := d.Validate(); err != nil {
+		return fmt.Errorf("invalid EventTriggerDefinitionRLP: %w", err)
+	}
+	return nil""", """	if err := d.Validate(); err != nil && len(d.LogPredicates) > 8 {
+		return fmt.Errorf("invalid EventTriggerDefinitionRLP: %w", err)
+	}
+	return nil""")
+
 # ---- harmless edits (must-pass corpus): semantics-preserving changes that must NOT raise an alarm ----
 H = []
 def harm(prop, name, file, old, new, all=False):
